@@ -26,6 +26,7 @@ from .engine import (
 )
 from .engine import mod_covers
 from .source import INDEX
+from .engine import TAGS  # noqa: E402
 
 
 def eval_args(ex: Exec, node: ast.Call) -> tuple[list[SV], dict[str, SV]]:
@@ -264,7 +265,10 @@ def construct(ex: Exec, cls: str, args: list[SV], kwargs: dict[str, SV]) -> SV:
     if ci is None:
         raise Unsupported(f"constructor of unknown class {cls}")
     if ex.spec:
-        raise Unsupported("constructor in spec mode")
+        ctx = getattr(ex, "comp_ctx", None)
+        if ctx is None or ci.is_exception or not ci.is_dataclass or INDEX.find_method(cls, "__post_init__") is not None:
+            raise Unsupported("constructor in spec mode")
+        return _construct_in_comprehension(ex, cls, ci, args, kwargs, ctx)
     if ci.is_exception:
         oid = ex.new_obj(cls)
         return SV(S.mk_ref(oid), T.obj(cls), aux=("exc", args, kwargs))
@@ -305,6 +309,50 @@ def construct(ex: Exec, cls: str, args: list[SV], kwargs: dict[str, SV]) -> SV:
         m = INDEX.find_method(cls, "__post_init__")
         call_repo(ex, f"{m[0].module}:{m[0].name}.__post_init__", [me], {}, None)
     return me
+
+
+def comp_site(ex: Exec, ctx: dict):
+    """Object id of the next allocation site of the comprehension being evaluated, for the
+    element with index ctx['j']: the comprehension reserves one block of n ids per site."""
+    if ctx["base"] is None:
+        ctx["base"] = ex.alloc
+    s = ctx["sites"]
+    ctx["sites"] += 1
+    return ctx["base"] + s * ctx["n"] + ctx["j"]
+
+
+def _construct_in_comprehension(ex: Exec, cls: str, ci, args: list[SV], kwargs: dict[str, SV], ctx: dict) -> SV:
+    """A dataclass constructed in the element expression of a comprehension: element j gets
+    the j-th id of a block reserved for this site; class tag and the fields given
+    explicitly are recorded as facts quantified over j (defaults are left unspecified)."""
+    fields = INDEX.all_fields(cls)
+    pos = [f for f in fields if not f.kw_only]
+    if len(args) > len(pos):
+        raise Unsupported("too many constructor arguments in a comprehension")
+    given: dict[str, SV] = {}
+    for f, a in zip(pos, args):
+        given[f.name] = a
+    for k, v in kwargs.items():
+        if k in given or all(f.name != k for f in fields):
+            raise Unsupported("bad constructor keyword in a comprehension")
+        given[k] = v
+    for f in fields:
+        if f.name not in given and f.factory is None and f.default is None:
+            raise Unsupported("missing constructor argument in a comprehension")
+    oid = comp_site(ex, ctx)
+    ctx["facts"].append(z3.Select(ex.H("cls"), oid) == TAGS.tag(cls))
+    for name, v in given.items():
+        t = v.t
+        if v.ty.kind == "raw" and t is not None and z3.is_seq(t):
+            # a list display as argument: its own allocation site
+            lid = comp_site(ex, ctx)
+            ctx["facts"].append(z3.Select(ex.H("cls"), lid) == TAGS.tag("list"))
+            ctx["facts"].append(z3.Select(ex.H("seq"), lid) == t)
+            t = S.mk_ref(lid)
+        elif v.ty.kind == "raw" or t is None:
+            raise Unsupported("constructor argument without a value term in a comprehension")
+        ctx["facts"].append(z3.Select(ex.H("fld:" + name), oid) == t)
+    return SV(S.mk_ref(oid), T.obj(cls))
 
 
 # ---------------------------------------------------------------------------
